@@ -340,7 +340,7 @@ def vc_product_operator(H, op):
             mark = len(ctx.pc)
             ctx.pc.append(code_sel)
             f = interp.symtruth(interp.call(r.filter_func, [kx, ky, ko], {}))
-            del ctx.pc[mark:]
+            ctx.truncate_pc(mark)
             if f is None:
                 raise OutOfSubset('filter_func result has no truth value')
             code_sel = z3.And(code_sel, f.t if isinstance(f, SBool) else z3.BoolVal(f))
